@@ -55,7 +55,12 @@ def periodicity_mismatches(case, limit=3):
         return None, None
     locator = md.Locator(deck)
     lat = [c for c in locator.deck['cells'] if c.get('lat')][0]
-    _leaves, W, C, A, ranges = locator.lattice_info(lat)
+    if lat['lat'] == 2:
+        hx = lat['hex']
+        A = np.array([hx['a1'], hx['a2']] + ([hx['a3']] if hx.get('a3')
+                                              else []), dtype=float)
+    else:
+        _leaves, W, C, A, ranges = locator.lattice_info(lat)
     rng = np.random.Generator(np.random.PCG64(case['pseed'] + 7))
     P = rng.uniform(-case['box'], case['box'], (300, 3))
     loc = locator.locate(P)
